@@ -10,7 +10,7 @@ Usage: tools/mkmutants.py [Cnn ...]    (default: all spec files)
 A spec whose `old` text is not found exactly once is an error (the tree moved:
 rewrite the control).
 """
-import difflib, importlib.util, json, os, sys
+import difflib, importlib.util, json, os, re, shutil, subprocess, sys, tempfile
 
 VERIF = os.path.dirname(os.path.dirname(os.path.abspath(__file__)))
 REPO = os.environ.get("CHF_REPO", "/repo")
@@ -33,6 +33,22 @@ def gen(prop):
     for m in load_specs(prop):
         name, expect, what, edits = m["name"], m["expect"], m.get("what", ""), m["edits"]
         files = {}
+        if m.get("base"):
+            # start from a refactored variant: the named diff (relative to /verif) is applied first
+            base = os.path.join(VERIF, m["base"])
+            rels = re.findall(r"^\+\+\+ b/(\S+)", open(base).read(), re.M)
+            tmp = tempfile.mkdtemp(prefix="mkmutants.")
+            try:
+                for rel in rels:
+                    os.makedirs(os.path.dirname(os.path.join(tmp, rel)), exist_ok=True)
+                    shutil.copy(os.path.join(REPO, rel), os.path.join(tmp, rel))
+                r = subprocess.run(["patch", "-p1", "-s", "-f", "--no-backup-if-mismatch", "-i", base], cwd=tmp, capture_output=True, text=True)
+                if r.returncode != 0:
+                    sys.exit(f"{prop}/{name}: base {m['base']} does not apply: {r.stdout}{r.stderr}")
+                for rel in rels:
+                    files[rel] = [open(os.path.join(REPO, rel)).read(), open(os.path.join(tmp, rel)).read()]
+            finally:
+                shutil.rmtree(tmp)
         for (rel, old, new) in edits:
             if rel not in files:
                 p = os.path.join(REPO, rel)
